@@ -96,12 +96,14 @@ type inFlightState struct {
 // f to mutate that state, and closes the connection if it is idle and either
 // is closing or has a read or write error.
 func (c *Connection) updateInFlight(f func(*inFlightState)) {
+	verifEnter(c)
 	c.stateMu.Lock()
 	defer c.stateMu.Unlock()
 
 	s := &c.state
 
 	f(s)
+	defer verifSnap(c, s)
 
 	select {
 	case <-c.done:
